@@ -513,6 +513,9 @@ func runBM25(o Opts) error {
 	if err := bm25E2E(o, rng, w, scale); err != nil {
 		return err
 	}
+	if err := bm25Structure(o, rng, w, scale); err != nil {
+		return err
+	}
 	w.Close()
 	return nil
 }
